@@ -8,7 +8,7 @@
 (* (spec -> implementation direction): see Export.                                         *)
 EXTENDS RuntimeCycle, Json
 
-CONSTANTS MaxSteps, MaxCycles, ExportScripts, EnableFaults, EnableRestart, SrcVals, Dts
+CONSTANTS MaxSteps, MaxCycles, ExportScripts, EnableFaults, EnableRestart, EnableDebugWrites, SrcVals, Dts
 
 VARIABLES hist,      \* script so far (observation only; hidden from the fingerprint by View)
           prev,      \* state before the last step (for action-style invariants)
@@ -80,7 +80,10 @@ DoRestart == \E mode \in {"warm", "cold"} : EnableRestart /\ last \notin {"Resta
         /\ Step("Restart", RestartOf(s, mode), [a |-> "Restart", mode |-> mode]) /\ UNCHANGED ncycles
 DoPowerCycle == EnableRestart /\ last \notin {"Restart", "PowerCycle", "Init"}
         /\ Step("PowerCycle", PowerCycleOf(s), [a |-> "PowerCycle"]) /\ UNCHANGED ncycles
-Next == DoRestart \/ DoPowerCycle \/ DoAdvance \/ DoSetSingle \/ DoSetSrc \/ DoInject \/ DoFailDriver \/ DoWatchdog \/ DoSimFault \/ DoCycle \/ DoRefusedCycle
+DoDebugWrite == EnableDebugWrites /\ last # "DebugVarWrite" /\ \E k \in DOMAIN cfg.bindings :
+        LET b == cfg.bindings[k] v == [i \in 1..SizeBytes(b.size) |-> 1] IN
+        Step("DebugVarWrite", DebugVarWriteOf(s, b.var, v), [a |-> "DebugVarWrite", var |-> b.var, val |-> v]) /\ UNCHANGED ncycles
+Next == DoDebugWrite \/ DoRestart \/ DoPowerCycle \/ DoAdvance \/ DoSetSingle \/ DoSetSrc \/ DoInject \/ DoFailDriver \/ DoWatchdog \/ DoSimFault \/ DoCycle \/ DoRefusedCycle
 Spec == Init /\ [][Next]_mvars
 
 \* ------------------------------------------------------------------ C06
@@ -156,6 +159,10 @@ NoProgramOutputsAfterFault == AfterCycle /\ NewFault /\ s.fault # "pending:Drive
 FaultIsLatched == (last \in {"Watchdog", "SimFault"} => s.faulted)
                   /\ (AfterCycle /\ ~prev.faulted /\ (prev.drvFail.d # 0 \/ (prev.inj.prog # "" /\ \E i \in DOMAIN s.exec : s.exec[i] = prev.inj.prog)) => s.faulted)
 
+\* ------------------------------------------------------------------ debugger writes
+\* a pending write changes nothing until a cycle executes; an executed cycle leaves none pending
+WritesOnlyAtBoundaries == (last = "DebugVarWrite" => s.vars = prev.vars /\ s.img = prev.img)
+                          /\ (AfterCycle /\ ~prev.faulted /\ prev.drvFail.op # "read" => s.pendVar = <<>> /\ s.pendIo = <<>>)
 \* ------------------------------------------------------------------ C09
 RetainedC(c) == c.qual \in {"retain", "persistent"}
 Ctrs == {cfg.counters[k] : k \in DOMAIN cfg.counters}
@@ -165,7 +172,7 @@ WarmKeepsExactlyRetained == (last = "PowerCycle" \/ (last = "Restart" /\ LastMod
     \A c \in Ctrs : s.ctr[c.name] = IF RetainedC(c) THEN prev.ctr[c.name] ELSE 0
 \* cold restart: observationally a newly built runtime (raw images excepted until the next cycle)
 ColdEqualsFresh == (last = "Restart" /\ LastMode = "cold") =>
-    LET f == Fresh(cfg, cfg.vars0) IN [s EXCEPT !.img = f.img, !.src = f.src, !.drvFail = f.drvFail] = f
+    LET f == Fresh(cfg, cfg.vars0) IN [s EXCEPT !.img = f.img, !.src = f.src, !.drvFail = f.drvFail, !.pendVar = <<>>, !.pendIo = <<>>] = f
 \* every restart clears the latch, the clock and the task state; bound variables restart at init
 RestartResets == last \in {"Restart", "PowerCycle"} =>
     /\ ~s.faulted /\ s.now = 0 /\ s.vars = cfg.vars0
